@@ -118,6 +118,24 @@ def _key_function(m, wf, e):
     if target is None or len(params) != 1:
         return None
     body = [x for x in target.body if not (isinstance(x, ast.Expr) and isinstance(x.value, ast.Constant))]
+    n_ret = sum(1 for x in ast.walk(target) if isinstance(x, ast.Return))
+    if n_ret > 1:
+        # several returns: the key is the formula only if every path returns the same expression of the sample
+        from .. import pyform
+        outs = pyform.outcomes(target)
+        vals = {}
+        for o in outs:
+            if o.value is None:
+                raise AnalysisError("%s: the grouping key function can fall off its end" % target.name)
+            vals.setdefault(norm(ast.unparse(o.value)), o)
+        if len(vals) > 1:
+            state = [t for t, o in vals.items() if "self._" in t and params[0] not in {x.id for x in ast.walk(o.value) if isinstance(x, ast.Name)}]
+            raise AnalysisError("%s: the grouping key is not one expression of the sample on every path (%s)%s; whether the paths "
+                                "agree for every sample index is value-level arithmetic and is not decided" % (
+                                    target.name, " | ".join(sorted(v[:50] for v in vals)),
+                                    (": on a path it is read from state the writer remembered from an earlier sample (`%s`)" % state[0][:50]) if state else ""))
+        o = list(vals.values())[0]
+        return Key(params[0], o.value, target)
     env = pysym.seq_env(body[:-1])
     if not isinstance(body[-1], ast.Return) or body[-1].value is None:
         return None
